@@ -103,8 +103,11 @@ def run_one(setup, hostile=0.0, procs=1, problem=None, evaluator_type=None, time
     r = (vrng.HostileRandom(setup["seed"], hostile) if hostile > 0 else vrng.SeededRandom(setup["seed"]))
     vrng.install(r)
     vrng.install_numpy(setup["seed"])
+    prepare = extra.pop("prepare", None)
     p = problem or build_problem(setup, **extra)
     a = algorithm or make(setup["algo"], p, setup["N"], setup["G"], procs=procs, evaluator_type=evaluator_type)
+    if prepare is not None:
+        prepare(a, p)          # between construction and run(): set a generator, re-declare parameters, change options...
     err = None
     import signal
     import threading
